@@ -1,0 +1,44 @@
+//go:build verif
+
+package actor
+
+// Contracts for property C37, actor side: what a running actor hands to the
+// codec when it is serialised for relocation (the codec half is in
+// internal/codec/zz_verif_contracts.go).
+
+//@ property C37
+//@ load github.com/tochemey/goakt/v4/internal/codec github.com/tochemey/goakt/v4/internal/internalpb
+
+//@ ghost var ser_sup *internalpb.SupervisorSpec
+//@ ghost var ser_re_loaded *reentrancyState
+//@ ghost var ser_re *internalpb.ReentrancyConfig
+//@ ghost var ser_relocatable bool
+//@ ghost var ser_role *string
+//@ ghost var ser_incarnation string
+//@ ghost var ser_deps_err error
+//@ ghost var ser_init_loaded *time.Duration
+
+// every piece of the actor's spawn configuration that is set reaches the wire
+// message, whatever its value (a reentrancy policy that is "Off" is still a
+// policy; an explicit init timeout of zero is still an override)
+//@ func (*PID).toSerialize(pid)
+//@   preserve PID.supervisor, PID.stashState, stashState.box
+//@   ghost entry ser_re_loaded = nil
+//@   ghost entry ser_init_loaded = nil
+//@   at call 1 of EncodeDependencies ghost ser_deps_err = result1
+//@   at call 1 of EncodeSupervisor assert encodes-its-own-supervisor: arg0 == pid.supervisor
+//@   at call 1 of EncodeSupervisor ghost ser_sup = result
+//@   at call 1 of (*Pointer).Load ghost ser_re_loaded = result
+//@   at call 1 of (*reentrancyState).toProto assert encodes-the-loaded-policy: arg0 == ser_re_loaded
+//@   at call 1 of (*reentrancyState).toProto ghost ser_re = result
+//@   at call 2 of (*Pointer).Load ghost ser_init_loaded = result
+//@   at call 1 of (*PID).IsRelocatable ghost ser_relocatable = result
+//@   at call 1 of (*PID).Role ghost ser_role = result
+//@   at call 1 of (*PID).IncarnationID ghost ser_incarnation = result
+//@   ensures dependency-error-surfaces: ser_deps_err != nil ==> result1 != nil && result0 == nil
+//@   ensures supervisor-carried: ser_deps_err == nil && old(pid.supervisor) != nil ==> result0 != nil && result0.Supervisor == ser_sup
+//@   ensures no-phantom-supervisor: ser_deps_err == nil && old(pid.supervisor) == nil ==> result0.Supervisor == nil
+//@   ensures reentrancy-carried-whatever-its-mode: ser_deps_err == nil && ser_re_loaded != nil ==> result0.Reentrancy == ser_re
+//@   ensures no-phantom-reentrancy: ser_deps_err == nil && ser_re_loaded == nil ==> result0.Reentrancy == nil
+//@   ensures init-timeout-override-carried: ser_deps_err == nil ==> (result0.InitTimeout != nil) == (ser_init_loaded != nil)
+//@   ensures flags-carried: ser_deps_err == nil ==> result0.Relocatable == ser_relocatable && result0.Role == ser_role && result0.IncarnationId == ser_incarnation && result0.EnableStash == (old(pid.stashState) != nil && old(pid.stashState.box) != nil)
